@@ -97,6 +97,24 @@ class C10Machine(SP.Machine):
         if last:
             self.cp_open.remove(o)
 
+    def drain_answers(self, limit=400):
+        if not self.case.get("paging"):
+            return SP.Machine.drain_answers(self, limit)
+        # a continuous-paging request is answered by pages; finish every stream with a last page
+        for _ in range(limit):
+            self.sim.settle()
+            self.scan()
+            if not self.held() and not self.cp_open:
+                break
+            self.page(0, 1)
+        self.sim.settle()
+        self.scan()
+
+    def answer_req(self, node, conn, req, kind):
+        if self.case.get("paging") and kind in ("rows", "void"):
+            raise ValueError("plain rows are not a sound answer to a continuous-paging request")
+        return SP.Machine.answer_req(self, node, conn, req, kind)
+
     def consume(self, i):
         futs = [f for f in self.futs.values() if f.pair.cb and not any(c["tag"] == f.tag for c in self.consumers)]
         if not futs:
@@ -308,17 +326,23 @@ def s_heartbeat():
 
 
 def s_paging(gran="blocking"):
-    ev = st.lists(st.one_of(
-        st.tuples(st.just("send"), st.sampled_from([3, 3, 2, 0])),
+    mid = st.one_of(
         st.tuples(st.just("send"), st.sampled_from([3, 3, 2, 0])),
         st.tuples(st.just("page"), st.integers(0, 5), st.sampled_from([0, 0, 0, 1])),
         st.tuples(st.just("page"), st.integers(0, 5), st.sampled_from([0, 0, 0, 1])),
         st.tuples(st.just("consume"), st.integers(0, 3)),
         st.tuples(st.just("advance"), st.sampled_from([0.35, 1.1, 6.0])),
-        st.tuples(st.just("answer"), st.integers(0, 5), st.sampled_from(["rows", "unavailable"] + SP.FAIL_ANSWERS)),
+    )
+    fail = st.one_of(
+        st.tuples(st.just("answer"), st.integers(0, 5), st.sampled_from(SP.FAIL_ANSWERS)),
+        st.tuples(st.just("answer"), st.integers(0, 5), st.sampled_from(SP.FAIL_ANSWERS)),
+        st.tuples(st.just("kill"), st.integers(0, 1), st.sampled_from(["close", "reset", "explicit"])),
         st.tuples(st.just("kill"), st.integers(0, 1), st.sampled_from(["close", "reset", "explicit"])),
         st.tuples(st.just("pool_shutdown")),
-    ), min_size=3, max_size=18).map(lambda l: [list(e) for e in l])
+        st.tuples(st.just("session_shutdown")),
+    )
+    ev = st.tuples(st.integers(1, 4), st.lists(mid, min_size=1, max_size=10), fail, st.lists(mid, max_size=4)).map(
+        lambda t: [["send", 3]] * t[0] + [list(e) for e in t[1]] + [list(t[2])] + [list(e) for e in t[3]])
     return SP.s_case(st, "c10", gran, [DSE_V1], mifs=(4, 5, 8), thrs=(2, 100),
                      extra={"events": ev, "paging": st.just(True), "versions": st.just([3, 4, DSE_V1]),
                             "decisions": st.just([])})
